@@ -48,6 +48,7 @@ EXPLANATION = (
     "(T9) The TOFU key is canonical: the C19 component samples (incl. a mixed-case host and IPv6 literals) evaluate to the lower-cased, unbracketed hostname and the effective port. "
     "(T10) Every GeminiClient construction passes trust_on_first_use as the caller's own option, a literal or the default. "
     "(T4, chain) every function that turns the peer's certificate into the fingerprinted object is pure."
+    ' (T11) = C12.D4: the store connection is not in autocommit mode, so a refused import cannot have removed pins.'
 )
 
 SESSION = "client.session:GeminiClient"
@@ -709,5 +710,9 @@ def run(chk: Check) -> None:
     from .c19 import wire_fidelity
 
     wire_fidelity(chk, "T9", "the TOFU key is canonical: ParsedURL.hostname is the lower-cased, unbracketed host and .port the effective port for every spelling (= C19.N1-N3), so one host:port has one pin")
+    from .c12 import DB as _DB, rule_d4
+    from .common import reuse as _reuse11
+
+    _reuse11(chk, rule_d4, "T11", "a refused import cannot unpin a host: store operations run in one transaction that is rolled back when the connection is closed uncommitted - sqlite3.connect is not in autocommit mode (= C12.D4); otherwise a replace-import that fails half-way has already deleted every pin and the next certificate is accepted as first use", ("D4",), chk.proj.cls(_DB))
     chk.trusted = ["CPython ast parser", "engine CFG / abstract evaluator", "hashlib, cryptography public_bytes(DER), sqlite3"]
     chk.assumptions = ["SQLite semantics over histories of store operations are trusted", "the explicit re-pin command (`nauyaca tofu trust`) runs with TOFU disabled on purpose and is outside this property"]
